@@ -50,6 +50,7 @@ import (
 	"github.com/dfklegend/cell2/utils/event"
 	"github.com/dfklegend/cell2/utils/logger"
 	"github.com/dfklegend/cell2/utils/sche"
+	"github.com/dfklegend/cell2/utils/timer"
 
 	"reflect"
 
@@ -169,6 +170,11 @@ func (h *hsvc) Receive(ctx actor.Context) {
 			ec := h.GetRunService().GetEventCenter()
 			ec.Subscribe(h.localName, func(args ...interface{}) { defer h.p.enter(kLocalEvent)() })
 			ec.GSubscribe(h.globalName, func(args ...interface{}) { defer h.p.enter(kGlobalEvent)() })
+			// a listener that itself produces work for its own service
+			ec.Subscribe(h.localName+"-nest", func(args ...interface{}) {
+				defer h.p.enter(kLocalEvent)()
+				h.fromInside()
+			})
 		}()
 		close(m.ack)
 	default:
@@ -179,12 +185,45 @@ func (h *hsvc) Receive(ctx actor.Context) {
 	}
 }
 
+// boundary delays of a timer: already due (zero, negative, a deadline long past), the
+// smallest positive delay, an ordinary one
+var edgeDelays = []time.Duration{0, -1, -3 * time.Second, 1, time.Millisecond}
+
+const edgeRepeats = 3 // firings of the repeating timer of a round before it cancels itself
+
+const nestMark = 77 // a request carrying this value makes its handler produce more work
+
+// fromInside is called in the middle of a piece of work of the service (posted closure,
+// timer callback, event listener, request handler): it arms timers that are already due,
+// posts to its own scheduler and publishes on its own event centre.  Each of those is a
+// new piece of work: it must start only after the current one has ended (a start before
+// that shows as a second piece in flight).
+func (h *hsvc) fromInside() {
+	p, rs := h.p, h.GetRunService()
+	p.prod[kTimer].Add(2)
+	rs.GetTimerMgr().After(0, func(args ...interface{}) { defer p.enter(kTimer)() })
+	rs.GetTimerMgr().AddTimer(-1, func(args ...interface{}) { defer p.enter(kTimer)() })
+	p.prod[kPost].Add(1)
+	h.Post(func() { defer p.enter(kPost)() })
+	p.prod[kLocalEvent].Add(1)
+	rs.GetEventCenter().Publish(h.localName, 0)
+}
+
+const (
+	insideTimers = 2 // what one fromInside call produces
+	insidePosts  = 1
+	insideLocals = 1
+)
+
 func (h *hsvc) ReceiveRequest(ctx actor.Context, request *messages.ServiceRequest, rawMsg interface{}) {
 	if request.ReqId == as.NotifyReqID {
 		defer h.p.enter(kNotify)()
 		return
 	}
 	defer h.p.enter(kRequest)()
+	if m, ok := rawMsg.(*messages.TestHello); ok && m.I == nestMark {
+		h.fromInside()
+	}
 	h.Response(request, as.CodeSucc, "", &messages.TestHello{I: 1})
 }
 
@@ -268,11 +307,17 @@ func cfgn(cfg []int64, i int) int {
 //
 //	cfg = [peers, reqPerPeer, notifyPerPeer, responses, timeouts, timerProducers, perTimerProducer,
 //	       posters, perPoster, publishers, localPerPublisher, globalPerPublisher, conns, msgsPerConn,
-//	       mode, ovLocal, ovGlobal, ovPost, ovTimer, ovSessMsg, ovRequest]
+//	       mode, ovLocal, ovGlobal, ovPost, ovTimer, ovSessMsg, ovRequest, edgeRounds]
 //
 // mode 1: before anything else the service actor is crashed once (a message whose handler
 // panics) and restarted by its supervisor.  mode 2: the same props is spawned a second time;
 // both actors are served by the one run service of the props and both receive requests.
+//
+// edgeRounds: that many rounds of "boundary" work run concurrently with everything else: timers
+// with delay 0 / negative / 1ns / 1ms, one-shot and repeating, armed from a foreign goroutine;
+// and from inside a posted closure, a timer callback, an event listener and a request handler
+// of the service itself, each of which also posts to and publishes on its own service.  The
+// ordinary and the overflow timer producers use the same boundary delays.
 //
 // ov*: an overflow phase comes first.  The service is held inside a posted closure; foreign
 // goroutines then produce that many items of the kind - more than the bounded queue holds
@@ -290,6 +335,7 @@ func runStress(seed int64, cfg []int64) any {
 	mode := cfgn(cfg, 14)
 	ovLocal, ovGlobal, ovPost := cfgn(cfg, 15), cfgn(cfg, 16), cfgn(cfg, 17)
 	ovTimer, ovSess, ovReq := cfgn(cfg, 18), cfgn(cfg, 19), cfgn(cfg, 20)
+	edgeRounds := cfgn(cfg, 21)
 	if ovLocal > 0 {
 		ovGlobal = 0 // one queue: a deterministic drop count needs it to hold one kind only
 	}
@@ -497,8 +543,9 @@ func runStress(seed int64, cfg []int64) any {
 			p.prod[kPost].Add(1)
 		})
 		burst(ovTimer, 1, func(i int) {
-			tm.After(time.Millisecond, func(args ...interface{}) { defer p.enter(kTimer)() })
+			// armed while the service is busy, most of them already due
 			p.prod[kTimer].Add(1)
+			tm.After(edgeDelays[i%len(edgeDelays)], func(args ...interface{}) { defer p.enter(kTimer)() })
 		})
 		if ovSess > 0 {
 			fs := &fakeSession{}
@@ -634,10 +681,65 @@ func runStress(seed int64, cfg []int64) any {
 	})
 	for i := 0; i < nTimerProd; i++ {
 		producer(perTimer, func(r *rand.Rand, j int) {
-			tm.After(time.Duration(1+r.Intn(8))*time.Millisecond, func(args ...interface{}) { defer p.enter(kTimer)() })
+			d := time.Duration(1+r.Intn(8)) * time.Millisecond
+			if r.Intn(3) == 0 {
+				d = edgeDelays[r.Intn(len(edgeDelays))]
+			}
 			p.prod[kTimer].Add(1)
+			if r.Intn(4) == 0 {
+				tm.AddTimer(0, func(args ...interface{}) { defer p.enter(kTimer)() }) // period 0: fires once
+			} else {
+				tm.After(d, func(args ...interface{}) { defer p.enter(kTimer)() })
+			}
 		})
 	}
+	timerCB := func(args ...interface{}) { defer p.enter(kTimer)() }
+	// (a) foreign goroutine: every boundary delay, one-shot and repeating
+	producer(edgeRounds, func(r *rand.Rand, j int) {
+		p.prod[kTimer].Add(int64(len(edgeDelays)) + 1 + edgeRepeats)
+		for _, d := range edgeDelays {
+			tm.After(d, timerCB)
+		}
+		tm.AddTimer(0, timerCB)
+		var id atomic.Uint64
+		fired := 0 // only touched by the callback
+		id.Store(uint64(tm.AddTimer(time.Millisecond, func(args ...interface{}) {
+			defer p.enter(kTimer)()
+			if fired++; fired == edgeRepeats {
+				for id.Load() == 0 {
+					runtime.Gosched()
+				}
+				tm.Cancel(timer.IdType(id.Load()))
+			}
+		})))
+	})
+	// (b) from inside a posted closure, (c) from inside a timer callback,
+	// (d) from inside an event listener, (e) from inside a request handler
+	producer(edgeRounds, func(r *rand.Rand, j int) {
+		p.prod[kPost].Add(1)
+		svc.Post(func() {
+			defer p.enter(kPost)()
+			svc.fromInside()
+			p.prod[kGlobalEvent].Add(1)
+			event.GetGlobalEC().Publish(svc.globalName, 0)
+		})
+	})
+	producer(edgeRounds, func(r *rand.Rand, j int) {
+		p.prod[kTimer].Add(1)
+		tm.After(edgeDelays[j%len(edgeDelays)], func(args ...interface{}) {
+			defer p.enter(kTimer)()
+			svc.fromInside()
+		})
+	})
+	producer(edgeRounds, func(r *rand.Rand, j int) {
+		p.prod[kLocalEvent].Add(1)
+		ec.Publish(svc.localName+"-nest", j)
+	})
+	producer(edgeRounds, func(r *rand.Rand, j int) {
+		p.prod[kRequest].Add(1)
+		echo.Post(func() { echo.Request(svcPID, &messages.TestHello{I: nestMark}, func(error, interface{}) {}) })
+	})
+
 	for i := 0; i < nPosters; i++ {
 		producer(perPoster, func(r *rand.Rand, j int) {
 			svc.Post(func() { defer p.enter(kPost)() })
